@@ -5,16 +5,25 @@ from ..flow import (resolver, peel, guards_of, rel_fact, aggregates, show, call_
 from ..facts import AnchorMissing
 from . import C04, C10, shared
 
-LEVEL = ("decides: a solution handed out is the snapshot taken while the solver still holds it, never "
-         "after the root was restored (S1); the placeholder solution never escapes (S2, shared with "
-         "C04-O5); a decision is made — and a solution declared — only at a conflict-free propagation "
-         "fix-point and only when the brancher proposes nothing AND no domain is unassigned (S3/S3b); "
-         "decision-level bookkeeping is paired over all trailed structures and backtracking notifies "
-         "every propagator and the brancher (S4); a propagator that overrides notify_backtrack registers "
-         "for backtrack events and vice versa, one that overrides notify registers variables (S5); event "
-         "routing tables of the watch lists and of the domain mutators (S5b); posting a predicate is never "
-         "silently dropped (shared with C02-U5b); API returns happen at decision level 0 (typestate). "
-         "a watcher registration is skipped only for an identical (propagator, local id) pair (S5c); affine views translate bounds/predicates with the right inner operation, rounding and divisibility guard (S8–S10, shared with C12); evaluate_predicate and Predicate negation are exact, decided on all domains of a 5-value universe (S11/S12); the nogood propagator looks at exactly the watchers whose predicate became true and never drops an unvisited watcher (S13/S14, WAKE/READD decided on all old⊇new domain pairs). Does not decide that any propagator detects every violation once its variables are fixed")
+LEVEL = ('decides: a solution handed out is the snapshot taken while the solver still holds it, never '
+         'after the root was restored (S1); the placeholder solution never escapes (S2, shared with '
+         'C04-O5); a decision is made — and a solution declared — only at a conflict-free propagation '
+         'fix-point and only when the brancher proposes nothing AND no domain is unassigned (S3/S3b); '
+         'decision-level bookkeeping is paired over all trailed structures and backtracking notifies '
+         'every propagator and the brancher (S4); a propagator that overrides notify_backtrack '
+         'registers for backtrack events and vice versa, one that overrides notify registers variables'
+         ' (S5); event routing tables of the watch lists and of the domain mutators (S5b); posting a '
+         'predicate is never silently dropped (shared with C02-U5b); API returns happen at decision '
+         'level 0 (typestate). a watcher registration is skipped only for an identical (propagator, '
+         'local id) pair (S5c); affine views translate bounds/predicates with the right inner '
+         'operation, rounding and divisibility guard (S8–S10, shared with C12); evaluate_predicate and'
+         ' Predicate negation are exact, decided on all domains of a 5-value universe (S11/S12); the '
+         'nogood propagator looks at exactly the watchers whose predicate became true and never drops '
+         'an unvisited watcher (S13/S14, WAKE/READD decided on all old⊇new domain pairs). the '
+         'arithmetic constraint builders and their negations mean what their names say (S15 = C09-R10,'
+         ' linear-form abstract evaluation); all_different posts x_i != x_j for every pair i < j '
+         '(S16). Does not decide that any propagator detects every violation once its variables are '
+         'fixed')
 TECHNIQUE = "static analysis: must-pass / dominance / paired-set / override⇒declare / table rules over rustc MIR"
 
 
